@@ -10,11 +10,14 @@ for ALL sheets of the fragment `CoreSheet.inFragment` it is PROVED with the Lean
 place of the real compiler: `compile_refines_reference` / `C02_fragment` (lock-step simulation of
 the compiler machine and the reference's pass 1, then a bisimulation up to node splitting between
 the index-resolved abstractions of the two flows).  The fragment: every row type of a core sheet
-except `no_op` and `insert_as_block` — action rows (left unconditionally and conditionally: the
-compiler's router node behind the action node), `wait_for_response` / `split_by_value` /
-`split_by_group` / `split_random` rows, `start_new_flow` / `call_webhook` / `transfer_airtime` rows,
-`go_to`, `hard_exit`, `loose_exit`; explicit category names; no given node identifiers / node
-names (no merging), no blocks.  `C02_fragment_full` names what is left.
+except `insert_as_block` — action rows (left unconditionally and conditionally: the compiler's router
+node behind the action node), `wait_for_response` / `split_by_value` / `split_by_group` /
+`split_random` rows, `start_new_flow` / `call_webhook` / `transfer_airtime` rows, `go_to`, `hard_exit`,
+`loose_exit`, and `no_op` rows (junctions: left unconditionally the compiler creates NO node and
+re-connects the sources — node elision, `Flow.DRel.skip` —, left conditionally a router node; the
+compiler's lazy re-connection is followed by a SCHEDULE of the edges, `CoreSheet.Sched`; F-C02-b is
+outside, with its witness); explicit category names; no given node identifiers / node names (no
+merging), no blocks.  `C02_fragment_full` names what is left.
 -/
 import Rpft.Lemmas.Bisim
 import Rpft.FlowSys
@@ -161,21 +164,48 @@ on every explored sheet).  The fragment (`CoreSheet.inFragment`, decidable):
 * rows: action rows; `wait_for_response` (with or without timeout), `split_by_value`,
   `split_by_group`, `split_random`; `start_new_flow`, `call_webhook`, `transfer_airtime` (performing
   their own action); `go_to` (its edges enter the named rows, cycles included); `hard_exit` /
-  `loose_exit` (the paths end); no given node identifier or node name, the action as the
-  documentation describes it (`rowOk`);
+  `loose_exit` (the paths end); no given node identifier, the action as the documentation describes
+  it, a node name on action rows only (`rowOk`);
+* rows merged into one node: an action row that carries the node name of an earlier action row is
+  merged into that row's node (the input rows are marked by `CoreSheet.annotate`: `mergeAt`); it has
+  exactly one edge, unconditional, with an explicit `from` (or no row id), from a row of that node
+  (`pass1F` exists: the FUSED reading, in which the merged row has no node and no edge and its row id
+  stands for the first row of its chain); the chain is a chain (`chainsOk`, checked on the two
+  readings' edges): every row but the last is left by exactly that one edge into the next row, the
+  out-edges of the last row are the fused reading's out-edges of the first row, and no edge of the
+  fused reading enters a merged row (F-C02-d).  The reference has one node per row, the compiler one
+  node per chain: the traces agree by node FUSION (`Flow.FuseOf`: a chain of nodes, each with
+  actions, no decision and one exit to the next, corresponds to one node that performs their actions
+  in order — an offset into its actions);
+* `no_op` rows (junctions, performing no action): entered from rows that are not `no_op` rows (not by a
+  `go_to`: the compiler rejects that), by any number of conditional or unconditional edges; left
+  EITHER by exactly one unconditional edge into a row — then the compiler creates no node at all, the
+  sources lead where that edge leads, while the reference has an empty node there (node ELISION:
+  `Flow.DRel.skip`, a destination naming a node without action and decision corresponds to what that
+  node's exit corresponds to) — OR by conditional edges naming one variable, followed by any number of
+  unconditional ones (`noopShape`: conditional edges FIRST, the other order is the finding F-C02-b) —
+  then both sides have a router node; between the first edge into a `no_op` row and the last edge
+  leaving it its sources receive no other edge, a source waits for one `no_op` row at a time, and every
+  `no_op` row that is entered is left (`noopSched`, a fold over the edges in sheet order); the flow
+  does not start at a `no_op` row (`firstOk`);
 * edges: any number of conditional or unconditional edges per row with explicit `from` row ids,
   blank `from` or `start` — chains, trees, joins, last-edge-wins defaults, tests appended in row
   order, "No Response" branches, buckets by name, fixed outcomes by word; an action row left
   conditionally gets a router node behind its node (two compiled nodes for one reference node);
 * single-meaning conditions, each forced (negative witnesses below): `edgeOk` (no variable on an edge
   leaving a wait row; the reserved "no response" only on edges leaving a wait row; no generated
-  bucket name used explicitly), `distinctTests`, `sameVars` (one variable per action row),
+  bucket name used explicitly), `distinctTests`, `sameVars` (one variable per action row / `no_op` row),
   `freshNames` (an explicit category name is new when it is used).
 Proof: lock-step simulation of the compiler machine and pass 1 of the reference (after every prefix
 of the sheet, the arena nodes of row `j` are the compiled form of row `j` with the out-edges recorded
-for `j`: `CoreSheet.Rel`, `row_sim`), then a bisimulation between the index-resolved abstractions of
-the two flows in which a reference node may correspond to TWO compiled nodes (`Flow.SplitOf`,
-`Flow.run_split`; entering a node does not depend on the fuel once it exceeds the number of nodes:
+for `j`: `CoreSheet.Rel`; with `no_op` rows the compiler applies an edge INTO a junction only when an
+edge LEAVES it, so the relation is kept against a schedule of the recorded edges in which such edges
+appear when they take effect: `CoreSheet.Sched`, `RelN`, `rows_simN`; at the end of a sheet of the
+fragment nothing is waiting and the schedule has, per source, the reference's edges in the
+reference's order; a merged row adds its action to the node of the first row of its chain — the
+`post` argument of `CoreSheet.RowSim`, `merge_row_simN`), then a bisimulation between the index-resolved abstractions of
+the two flows in which a reference node may correspond to TWO compiled nodes and a chain of
+reference nodes to ONE (`Flow.FuseOf`, `Flow.run_fuse`, generalising `Flow.SplitOf` / `Flow.run_split`; entering a node does not depend on the fuel once it exceeds the number of nodes:
 `Flow.aEnter_stable`); identifiers do not matter (`Flow.trace_abs`), in a switch node built case by
 case answer `c` leads where exit `c` leads (`Flow.Positional`, `Flow.CatsPos`).  Category names are
 not observed (C02's level); `rnf`: whether result names are. -/
@@ -198,11 +228,16 @@ theorem C02_fragment (testTypes : List Str) (rows : List CoreSheet.CRow) (out : 
 
 /-- What is NOT proved universally: the same statement for every sheet the parser accepts, i.e.
 with a weaker `wf` than `inFragment` (the documented single-meaning conditions DESIGN §5 C02 WF,
-NoopStable).  Left out of the fragment: `no_op` rows (their router is created lazily and their
-parents are re-connected: F-C02-b lives there), rows naming an existing node (`_nodeId` / node name:
-node merging), blocks (`insert_as_block`, `begin_block` / `end_block`: the block clause of C03), and
-rows that do not stand for themselves in the documentation's table.  Decided per explored sheet by
-`flows_equiv_of_cert` on the real output. -/
+NoopStable).  Left out of the fragment: rows with a GIVEN node identifier (`_nodeId`: merging by
+identifier, and the identifier arithmetic of F-C01-a), node names on rows that are not action rows,
+chains of merged rows that are not chains (`chainsOk` is CHECKED on the edges of the two readings, not
+derived from simpler conditions on the rows), blocks (`insert_as_block`, `begin_block` / `end_block`:
+the block clause of C03), rows that do not stand for themselves in the documentation's table, and four
+shapes of `no_op` rows on which the
+two readings agree as far as explored but which the schedule of the proof does not cover (left by
+several unconditional edges only; left unconditionally into an exit row; entered from a `no_op` row;
+entered and never left) — every sheet the harness calls `noop_stable` is inside.  Decided per explored
+sheet by `flows_equiv_of_cert` on the real output. -/
 def C02_fragment_full (wf : List CoreSheet.CRow → Prop) : Prop :=
   ∀ (testTypes : List Str) (rows : List CoreSheet.CRow) (out : Compile.Out) (r : Flow.Flow),
     wf rows → Compile.compile RefFlow.noArgsTests testTypes (rows.map CoreSheet.toEvent) = .ok out →
@@ -213,15 +248,16 @@ def C02_fragment_full (wf : List CoreSheet.CRow → Prop) : Prop :=
 
 /-- a row: id, type, edges (`from`, condition value), the content of its action; optional: the
 `no_response` cell, the expression, a variable / category name on its conditional edges, a given
-node identifier, a different action content in the documentation's table -/
+node identifier, a different action content in the documentation's table, the destinations of a
+`go_to` row, a node name -/
 def mkRow (id type : String) (edges : List (String × String)) (act : Option String) (nr : String := "")
     (expr : String := "") (var : String := "") (name : String := "") (uuid : String := "")
-    (ract : Option String := none) (dests : List String := []) : CoreSheet.CRow :=
+    (ract : Option String := none) (dests : List String := []) (nname : String := "") : CoreSheet.CRow :=
   { row := { rowId := id.toList, type := type.toList,
              edges := edges.map (fun (f, v) => ⟨f.toList, ⟨v.toList, if v = "" then [] else var.toList, [],
                                                           if v = "" then [] else name.toList⟩⟩),
              action := act.map String.toList, actionOk := true, ownAction := none, nodeUuid := uuid.toList,
-             nodeName := [], saveName := "res".toList, noResponse := nr.toList, expression := expr.toList,
+             nodeName := nname.toList, saveName := "res".toList, noResponse := nr.toList, expression := expr.toList,
              flowName := [], dests := dests.map String.toList, resultKey := none, nodeOk := true },
     refAct := (match ract with | some x => some x | none => act).map String.toList }
 
@@ -305,18 +341,121 @@ passing the three rows with fixed outcomes and the `split_random` row, the fourt
 rows that are left conditionally -/
 example :
     (bothTraces exRows (fun k => k) 8).map (fun p => decide (p.1 = p.2)) = some true ∧
-    (bothTraces exRows (fun k => 2 * k + 1) 8).map (fun p => decide (p.1 = p.2)) = some true ∧
+    (bothTraces exRows (fun k => 2 * k + 1) 8).map (fun p => decide (p.1 = p.2)) = some true :=
+  ⟨by decide +kernel, by decide +kernel⟩
+
+example :
     (bothTraces exRows (fun k => if k = 0 then 3 else if k = 2 then 1 else 0) 15).map
       (fun p => decide (p.1 = p.2 ∧ p.1.length = 15)) = some true ∧
     (bothTraces exRows (fun _ => 0) 24).map
       (fun p => decide (p.1 = p.2 ∧ Obs.act "QA".toList ∈ p.1 ∧ Obs.act "UA".toList ∈ p.1)) = some true :=
-  ⟨by decide +kernel, by decide +kernel, by decide +kernel, by decide +kernel⟩
+  ⟨by decide +kernel, by decide +kernel⟩
 
-/-- outside the fragment, with both readings defined and the traces DIFFERENT -/
-def refuted (rows : List CoreSheet.CRow) (n : Nat) : Bool :=
+/-- `no_op` rows (junctions): `j` joins two rows and one test of the wait row and is left
+unconditionally — the compiler creates NO node for it, its three sources lead to row `x` (the
+reference interpretation has an empty node there); `k` joins a row and the default of the wait row and
+is left on two tests of a variable, then unconditionally — a router node; a `go_to` closes two cycles -/
+def exNoop : List CoreSheet.CRow :=
+  [ mkRow "a" "send_message" [("start", "")] (some "A"),
+    mkRow "w" "wait_for_response" [("a", "")] none,
+    mkRow "y" "send_message" [("w", "yes")] (some "Y"),
+    mkRow "n" "send_message" [("w", "no")] (some "N"),
+    mkRow "j" "no_op" [("y", ""), ("n", ""), ("w", "maybe")] none,
+    mkRow "x" "send_message" [("j", "")] (some "X"),
+    mkRow "k" "no_op" [("x", ""), ("w", "")] none,
+    mkRow "p" "send_message" [("k", "1")] (some "P") "" "" "@fields.v" "One",
+    mkRow "q" "send_message" [("k", "2")] (some "Q") "" "" "@fields.v",
+    mkRow "d" "send_message" [("k", "")] (some "D"),
+    mkRow "" "go_to" [("d", ""), ("q", "")] none "" "" "" "" "" none ["a"] ]
+
+/-- non-vacuity with `no_op` rows: in the fragment; 9 compiled nodes (none for `j`, a router for `k`),
+10 reference nodes -/
+example : CoreSheet.inFragment exNoop = true ∧
+    (∃ out, Compile.compile RefFlow.noArgsTests exTests (exNoop.map CoreSheet.toEvent) = .ok out ∧
+      out.nodes.length = 9) ∧
+    (∃ r, RefFlow.refFlow (exNoop.map CoreSheet.toRRow) = .ok r ∧ r.nodes.length = 10) := by
+  refine ⟨by decide +kernel, ?_, ?_⟩
+  · have h : (match Compile.compile RefFlow.noArgsTests exTests (exNoop.map CoreSheet.toEvent) with
+        | .ok out => decide (out.nodes.length = 9) | .error _ => false) = true := by decide +kernel
+    split at h
+    · rename_i out ho; exact ⟨out, ho, by simpa using h⟩
+    · cases h
+  · have h : (match RefFlow.refFlow (exNoop.map CoreSheet.toRRow) with
+        | .ok r => decide (r.nodes.length = 10) | .error _ => false) = true := by decide +kernel
+    split at h
+    · rename_i r hr; exact ⟨r, hr, by simpa using h⟩
+    · cases h
+
+/-- … the traces agree: through the junction without a node into `X`, on through the junction with a
+router node to its default `D` / its second test `Q`, and around the cycles -/
+example :
+    (bothTraces exNoop (fun k => k) 12).map (fun p => decide (p.1 = p.2 ∧ p.1.length = 12)) = some true ∧
+    (bothTraces exNoop (fun _ => 2) 12).map
+      (fun p => decide (p.1 = p.2 ∧ Obs.act "X".toList ∈ p.1 ∧ Obs.act "D".toList ∈ p.1)) = some true ∧
+    (bothTraces exNoop (fun k => if k = 1 then 0 else 1) 12).map
+      (fun p => decide (p.1 = p.2 ∧ Obs.act "X".toList ∈ p.1 ∧ Obs.act "Q".toList ∈ p.1)) = some true :=
+  ⟨by decide +kernel, by decide +kernel, by decide +kernel⟩
+
+/-- rows merged into one node by their node name: `a`, `b`, `c` (three actions in one node, left on a
+test of the reply — the router node the compiler puts behind the merged node — and unconditionally),
+`d`, `e`, and `g` with the row after it (blank `from`, no row id); a `go_to` back to the first row of
+a chain -/
+def exMerge : List CoreSheet.CRow :=
+  [ mkRow "a" "send_message" [("start", "")] (some "A") (nname := "X"),
+    mkRow "b" "add_to_group" [("a", "")] (some "B") (nname := "X"),
+    mkRow "c" "send_message" [("b", "")] (some "C") (nname := "X"),
+    mkRow "d" "send_message" [("c", "yes")] (some "D") (nname := "Y"),
+    mkRow "e" "send_message" [("d", "")] (some "E") (nname := "Y"),
+    mkRow "f" "send_message" [("c", ""), ("e", "")] (some "F"),
+    mkRow "w" "wait_for_response" [("f", "")] none,
+    mkRow "" "go_to" [("w", "again")] none (dests := ["a"]),
+    mkRow "g" "send_message" [("w", "")] (some "G") (nname := "Z"),
+    mkRow "" "send_message" [("", "")] (some "H") (nname := "Z") ]
+
+/-- non-vacuity with merged rows: in the fragment; 6 compiled nodes (one per chain, the router behind
+the first chain, `f`, `w`), 9 reference nodes (one per row) -/
+example : CoreSheet.inFragment exMerge = true ∧
+    (∃ out, Compile.compile RefFlow.noArgsTests exTests (exMerge.map CoreSheet.toEvent) = .ok out ∧
+      out.nodes.length = 6) ∧
+    (∃ r, RefFlow.refFlow (exMerge.map CoreSheet.toRRow) = .ok r ∧ r.nodes.length = 9) := by
+  refine ⟨by decide +kernel, ?_, ?_⟩
+  · have h : (match Compile.compile RefFlow.noArgsTests exTests (exMerge.map CoreSheet.toEvent) with
+        | .ok out => decide (out.nodes.length = 6) | .error _ => false) = true := by decide +kernel
+    split at h
+    · rename_i out ho; exact ⟨out, ho, by simpa using h⟩
+    · cases h
+  · have h : (match RefFlow.refFlow (exMerge.map CoreSheet.toRRow) with
+        | .ok r => decide (r.nodes.length = 9) | .error _ => false) = true := by decide +kernel
+    split at h
+    · rename_i r hr; exact ⟨r, hr, by simpa using h⟩
+    · cases h
+
+/-- … the traces agree: around the cycle through all three chains' first, and through the defaults to
+the end of the flow -/
+example :
+    (bothTraces exMerge (fun _ => 0) 12).map
+      (fun p => decide (p.1 = p.2 ∧ p.1.length = 12 ∧ Obs.act "E".toList ∈ p.1)) = some true ∧
+    (bothTraces exMerge (fun _ => 1) 12).map
+      (fun p => decide (p.1 = p.2 ∧ p.1.length = 8 ∧ Obs.act "H".toList ∈ p.1)) = some true :=
+  ⟨by decide +kernel, by decide +kernel⟩
+
+/-- outside the fragment, with both readings defined and the traces DIFFERENT (on the answer stream
+`env`) -/
+def refutedAt (rows : List CoreSheet.CRow) (env : Nat → Nat) (n : Nat) : Bool :=
+  !CoreSheet.inFragment rows &&
+  match bothTraces rows env n with
+  | some p => decide (p.1 ≠ p.2)
+  | none => false
+
+/-- … on the stream of first answers -/
+def refuted (rows : List CoreSheet.CRow) (n : Nat) : Bool := refutedAt rows (fun _ => 0) n
+
+/-- outside the fragment, both readings defined, and the traces EQUAL on the stream of first answers:
+a clause the proof needs but this sheet does not show to be forced -/
+def agreesOutside (rows : List CoreSheet.CRow) (n : Nat) : Bool :=
   !CoreSheet.inFragment rows &&
   match bothTraces rows (fun _ => 0) n with
-  | some p => decide (p.1 ≠ p.2)
+  | some p => decide (p.1 = p.2)
   | none => false
 
 /-- clause "the action the compiler attaches is the one the documentation describes" (the part of
@@ -423,6 +562,200 @@ theorem fragment_needs_no_noresponse_on_split :
     refuted [mkRow "v" "split_by_value" [("start", "")] none "" "@fields.x",
              mkRow "y" "send_message" [("v", "no response")] (some "Y")] 3 = true := by
   decide +kernel
+
+/-! ##### `no_op` rows -/
+
+/-- clause `noopShape`, conditional edges first — the recorded finding **F-C02-b** (the sheet of
+`harness/props/c02.py F_C02_B`): a `no_op` row left unconditionally in a row BEFORE the row that leaves
+it conditionally loses the unconditional target; on an answer that matches no test the compiled flow
+ends after the decision, the rows lead on to `r2`.  (The opposite row order is in the fragment.) -/
+theorem fragment_needs_noop_conditions_first :
+    refutedAt [mkRow "r1" "send_message" [("start", "")] (some "hello"),
+               mkRow "n" "no_op" [("r1", "")] none,
+               mkRow "r2" "send_message" [("n", "")] (some "unconditional target"),
+               mkRow "r3" "send_message" [("n", "yes")] (some "conditional target") "" "" "@fields.x"]
+      (fun _ => 1) 3 = true := by
+  decide +kernel
+
+/-- … and the opposite order is inside -/
+example : CoreSheet.inFragment
+    [mkRow "r1" "send_message" [("start", "")] (some "hello"),
+     mkRow "n" "no_op" [("r1", "")] none,
+     mkRow "r3" "send_message" [("n", "yes")] (some "conditional target") "" "" "@fields.x",
+     mkRow "r2" "send_message" [("n", "")] (some "unconditional target")] = true := by
+  decide +kernel
+
+/-- clause `noopSched`: a source of a `no_op` row receives no other edge before the `no_op` row is
+left — the compiler re-connects the source when the junction is left (so `a` leads to `Y`), the rows
+say the later edge wins (`a` leads to `X`) -/
+theorem fragment_needs_noop_left_before_its_sources_move :
+    refuted [mkRow "a" "send_message" [("start", "")] (some "A"),
+             mkRow "n" "no_op" [("a", "")] none,
+             mkRow "x" "send_message" [("a", "")] (some "X"),
+             mkRow "y" "send_message" [("n", "")] (some "Y")] 3 = true := by
+  decide +kernel
+
+/-- clause `noopSched`, at the end no edge is waiting: an edge into a `no_op` row that is never left
+does not take effect in the compiled flow (`a` still leads to `X`), for the rows it is `a`'s last edge
+(the path ends in the junction) -/
+theorem fragment_needs_noop_left :
+    refuted [mkRow "a" "send_message" [("start", "")] (some "A"),
+             mkRow "x" "send_message" [("a", "")] (some "X"),
+             mkRow "n" "no_op" [("a", "")] none] 3 = true := by
+  decide +kernel
+
+/-- clause `noopSched`, one waiting junction per source: with two, the one left LAST wins in the
+compiled flow (`a` leads to `X`), the one entered last for the rows (`a` leads to `Y`) -/
+theorem fragment_needs_one_waiting_noop_per_source :
+    refuted [mkRow "a" "send_message" [("start", "")] (some "A"),
+             mkRow "n" "no_op" [("a", "")] none,
+             mkRow "m" "no_op" [("a", "")] none,
+             mkRow "y" "send_message" [("m", "")] (some "Y"),
+             mkRow "x" "send_message" [("n", "")] (some "X")] 3 = true := by
+  decide +kernel
+
+/-- clause `firstOk`: a `no_op` row that is left unconditionally has no node, so it cannot be where the
+flow starts — the compiled flow starts at the first node there is (`X`), the rows at the junction
+(which leads to `Y`) -/
+theorem fragment_needs_first_row_not_noop :
+    refuted [mkRow "n" "no_op" [("start", "")] none,
+             mkRow "x" "send_message" [("start", "")] (some "X"),
+             mkRow "y" "send_message" [("n", "")] (some "Y")] 2 = true := by
+  decide +kernel
+
+/-- clause `sameVars` for `no_op` rows: one decision, one variable (the compiler takes the one named
+last) -/
+theorem fragment_needs_same_variable_on_noop :
+    refuted [mkRow "a" "send_message" [("start", "")] (some "A"),
+             mkRow "n" "no_op" [("a", "")] none,
+             mkRow "x" "send_message" [("n", "1")] (some "X") "" "" "@fields.k",
+             mkRow "y" "send_message" [("n", "2")] (some "Y") "" "" "@fields.j"] 3 = true := by
+  decide +kernel
+
+/-- clause `distinctTests` for `no_op` rows -/
+theorem fragment_needs_distinct_tests_on_noop :
+    refuted [mkRow "a" "send_message" [("start", "")] (some "A"),
+             mkRow "n" "no_op" [("a", "")] none,
+             mkRow "x" "send_message" [("n", "1")] (some "X") "" "" "@fields.k",
+             mkRow "y" "send_message" [("n", "1")] (some "Y") "" "" "@fields.k"] 4 = true := by
+  decide +kernel
+
+/-- clause `freshNames` for `no_op` rows: an explicit category name in use (the default's) -/
+theorem fragment_needs_fresh_category_name_on_noop :
+    refuted [mkRow "a" "send_message" [("start", "")] (some "A"),
+             mkRow "n" "no_op" [("a", "")] none,
+             mkRow "x" "send_message" [("n", "1")] (some "X") "" "" "@fields.k" "Other",
+             mkRow "y" "send_message" [("n", "")] (some "Y")] 4 = true := by
+  decide +kernel
+
+/-- clause `noopRow`: a `no_op` row performs no action (in the documentation's table either) -/
+theorem fragment_needs_noop_without_action :
+    refuted [mkRow "a" "send_message" [("start", "")] (some "A"),
+             mkRow "n" "no_op" [("a", "")] none "" "" "" "" "" (some "N"),
+             mkRow "x" "send_message" [("n", "")] (some "X")] 3 = true := by
+  decide +kernel
+
+/-- NOT shown to be forced (the proof needs them; on these sheets the two readings agree): a `no_op`
+row left by two unconditional edges (the last one wins on both sides), a `no_op` row left
+unconditionally into an exit row, a `no_op` row entered from a `no_op` row (a chain), a `no_op` row that
+is never left and is the only edge of its source.  A conditional edge leaving a `no_op` row without
+naming a variable is rejected by the compiler (and its model), as is a `go_to` into a `no_op` row. -/
+example :
+    agreesOutside [mkRow "a" "send_message" [("start", "")] (some "A"),
+                   mkRow "n" "no_op" [("a", "")] none,
+                   mkRow "x" "send_message" [("n", "")] (some "X"),
+                   mkRow "y" "send_message" [("n", "")] (some "Y")] 4 = true ∧
+    agreesOutside [mkRow "a" "send_message" [("start", "")] (some "A"),
+                   mkRow "n" "no_op" [("a", "")] none,
+                   mkRow "" "hard_exit" [("n", "")] none] 4 = true ∧
+    agreesOutside [mkRow "a" "send_message" [("start", "")] (some "A"),
+                   mkRow "n" "no_op" [("a", "")] none,
+                   mkRow "m" "no_op" [("n", "")] none,
+                   mkRow "x" "send_message" [("m", "")] (some "X")] 4 = true ∧
+    agreesOutside [mkRow "a" "send_message" [("start", "")] (some "A"),
+                   mkRow "n" "no_op" [("a", "")] none] 4 = true ∧
+    (CoreSheet.inFragment [mkRow "a" "send_message" [("start", "")] (some "A"),
+                           mkRow "n" "no_op" [("a", "")] none,
+                           mkRow "x" "send_message" [("n", "1")] (some "X")] = false ∧
+     bothTraces [mkRow "a" "send_message" [("start", "")] (some "A"),
+                 mkRow "n" "no_op" [("a", "")] none,
+                 mkRow "x" "send_message" [("n", "1")] (some "X")] (fun _ => 0) 4 = none) :=
+  ⟨by decide +kernel, by decide +kernel, by decide +kernel, by decide +kernel, by decide +kernel, by decide +kernel⟩
+
+/-! ##### rows merged into an existing node by node name -/
+
+/-- the recorded finding **F-C02-d** (the sheet of `harness/props/c02.py F_C02_D`): a `go_to` row that
+names a row MERGED into an existing node enters that node at its first action — after the answer
+"again" the compiled flow performs `first action` once more, the rows continue at `second action` -/
+theorem merged_row_entered_replays_earlier_actions :
+    refuted [mkRow "a" "send_message" [("start", "")] (some "first action") (nname := "X"),
+             mkRow "b" "send_message" [("a", "")] (some "second action") (nname := "X"),
+             mkRow "w" "wait_for_response" [("b", "")] none,
+             mkRow "" "go_to" [("w", "again")] none (dests := ["b"])] 4 = true := by
+  decide +kernel
+
+/-- the recorded finding **F-C02-e** (the sheet of `harness/props/c02.py F_C02_E`): an action row that
+carries the node name of a `wait_for_response` row and follows it unconditionally is merged into the
+ROUTER node — the compiled flow performs its action BEFORE waiting, the rows say after the wait, on the
+default branch -/
+theorem action_merged_into_router_runs_before_decision :
+    refuted [mkRow "a" "send_message" [("start", "")] (some "hello"),
+             mkRow "w" "wait_for_response" [("a", "")] none (nname := "X"),
+             mkRow "b" "send_message" [("w", "")] (some "after the wait") (nname := "X"),
+             mkRow "c" "send_message" [("w", "yes")] (some "on yes")] 2 = true := by
+  decide +kernel
+
+/-- clause `chainsOk`, the row merged behind has no other out-edge: with a second unconditional edge
+the rows say "the last edge wins" (`A`, then `C`), the merged node performs `A`, `B` -/
+theorem fragment_needs_chain_row_single_edge :
+    refuted [mkRow "a" "send_message" [("start", "")] (some "A") (nname := "X"),
+             mkRow "b" "send_message" [("a", "")] (some "B") (nname := "X"),
+             mkRow "c" "send_message" [("a", "")] (some "C")] 3 = true := by
+  decide +kernel
+
+/-- … nor a conditional one: the rows decide after `A`, the merged node performs `B` first -/
+theorem fragment_needs_chain_row_unconditional :
+    refuted [mkRow "a" "send_message" [("start", "")] (some "A") (nname := "X"),
+             mkRow "b" "send_message" [("a", "")] (some "B") (nname := "X"),
+             mkRow "c" "send_message" [("a", "yes")] (some "C")] 3 = true := by
+  decide +kernel
+
+/-- clause `chainsOk`, a chain is a chain: a row merged behind the FIRST row of a chain that has a
+second row already (both lead on from `a`: for the rows only the last edge counts) -/
+theorem fragment_needs_linear_chain :
+    refuted [mkRow "a" "send_message" [("start", "")] (some "A") (nname := "X"),
+             mkRow "b" "send_message" [("a", "")] (some "B") (nname := "X"),
+             mkRow "c" "send_message" [("a", "")] (some "C") (nname := "X")] 4 = true := by
+  decide +kernel
+
+/-- clause `chainsOk`, a blank `from` after a merged row: the compiler takes the last row that created a
+node GROUP (`z`), the rows the row before (`b`) -/
+theorem fragment_needs_explicit_from_after_detached_merge :
+    refuted [mkRow "a" "send_message" [("start", "")] (some "A") (nname := "X"),
+             mkRow "z" "send_message" [("start", "")] (some "Z"),
+             mkRow "b" "send_message" [("a", "")] (some "B") (nname := "X"),
+             mkRow "d" "send_message" [("", "")] (some "D")] 4 = true := by
+  decide +kernel
+
+/-- … with an explicit `from` the same sheet is inside -/
+example : CoreSheet.inFragment
+    [mkRow "a" "send_message" [("start", "")] (some "A") (nname := "X"),
+     mkRow "z" "send_message" [("start", "")] (some "Z"),
+     mkRow "b" "send_message" [("a", "")] (some "B") (nname := "X"),
+     mkRow "d" "send_message" [("b", "")] (some "D")] = true := by
+  decide +kernel
+
+/-- the clauses about merged rows restrict nothing where no row is merged: the fused reading of such
+a sheet is its reference reading, and `chainsOk` holds by itself (so on sheets without node names the
+fragment is given by the conditions on rows, edges and `no_op` rows alone) -/
+theorem merged_row_clauses_trivial_without_merged_rows (rows : List CoreSheet.CRow)
+    (h : ∀ c ∈ rows, (c.merged && CoreSheet.isNamedAct c) = false) :
+    CoreSheet.pass1F rows = RefFlow.pass1 (rows.map CoreSheet.toRRow) ∧
+    ∀ out, RefFlow.pass1 (rows.map CoreSheet.toRRow) = .ok out → CoreSheet.chainsOk rows out out = true :=
+  ⟨CoreSheet.pass1F_unmerged rows h, fun out hp => CoreSheet.chainsOk_unmerged rows h out hp⟩
+
+/-- non-vacuity: the rows of `exRows` (marked) are such a sheet -/
+example : ∀ c ∈ CoreSheet.annotate exRows, (c.merged && CoreSheet.isNamedAct c) = false := by decide +kernel
 
 /-- T1: the tests without argument of the reference interpretation are the source's
 `RouterCase.NO_ARGS_TESTS` (re-extracted on every run). -/
